@@ -8,7 +8,8 @@
 //!     drain : a (the peer reads everything available after every op) | m (only at `r` ops; unix only:
 //!             a full peer queue then makes a non-blocking send fail with WouldBlock)
 //!     ops   : comma list of e<hex> emit | g<len> emit a generated metric of that many bytes |
-//!             f flush | s read stats | q read stats through a wrapping QueuingMetricSink | r peer drains
+//!             f flush | s read stats | q read stats through a wrapping QueuingMetricSink | r peer drains |
+//!             R the receiver restarts (unix: unlink + bind a new socket at the same path)
 //!             (a final drop of the sink and a final drain are appended)
 //!     obs   : `;` list per op of  <res>/<dsent>.<ddropped>/<datagrams>
 //!       res : ok<n> | err<k> | panic | S<bytes_sent>.<packets_sent>.<bytes_dropped>.<packets_dropped>
@@ -83,6 +84,25 @@ impl Peer {
 }
 
 impl Peer {
+    /// the receiver restarts: the old socket is unlinked and a new one bound at the same path;
+    /// the old socket is kept open (anything that still reaches it is misdelivered)
+    fn restart(&mut self, old: &mut Vec<UnixDatagram>) -> bool {
+        if let Peer::Unix(s, path) = self {
+            let _ = std::fs::remove_file(&*path);
+            match UnixDatagram::bind(&*path) {
+                Ok(n) => {
+                    let _ = n.set_nonblocking(true);
+                    let prev = std::mem::replace(s, n);
+                    old.push(prev);
+                    true
+                }
+                Err(_) => false,
+            }
+        } else {
+            false
+        }
+    }
+
     /// datagrams that went to the decoy address (must be none)
     fn decoy_count(&self) -> usize {
         let mut n = 0;
@@ -184,10 +204,11 @@ fn build(kind: &str, cap: &str, nb: bool) -> Option<(DynSink, Peer)> {
 }
 
 fn run_sock(kind: &str, cap: &str, nb: bool, drain: &str, ops: &[String]) -> String {
-    let (sink, peer) = match build(kind, cap, nb) {
+    let (sink, mut peer) = match build(kind, cap, nb) {
         Some(x) => x,
         None => return "setup-failed".to_string(),
     };
+    let mut old_peers: Vec<UnixDatagram> = Vec::new();
     let queuing = QueuingMetricSink::from(Shared(sink.clone()));
     let auto = drain == "a";
     let mut obs = Vec::new();
@@ -222,6 +243,13 @@ fn run_sock(kind: &str, cap: &str, nb: bool, drain: &str, ops: &[String]) -> Str
             "s" => fmt_stats(&sink.stats()),
             "q" => fmt_stats(&queuing.stats()),
             "r" => "ok0".to_string(),
+            "R" => {
+                if peer.restart(&mut old_peers) {
+                    "ok0".to_string()
+                } else {
+                    "norestart".to_string()
+                }
+            }
             _ => "badop".to_string(),
         };
         let now = sink.stats();
@@ -244,7 +272,13 @@ fn run_sock(kind: &str, cap: &str, nb: bool, drain: &str, ops: &[String]) -> Str
     if Arc::strong_count(&sink) == 1 {
         let r = catch_unwind(AssertUnwindSafe(move || drop(sink)));
         let got = peer.drain(0);
-        let decoy = peer.decoy_count();
+        let mut decoy = peer.decoy_count();
+        let mut buf = vec![0u8; 65536];
+        for o in &old_peers {
+            while o.recv(&mut buf).is_ok() {
+                decoy += 1;
+            }
+        }
         obs.push(format!(
             "{}/x.x/{}",
             if r.is_ok() && decoy == 0 { "ok0".to_string() } else if decoy > 0 { format!("decoy{}", decoy) } else { "panic".to_string() },
@@ -444,8 +478,19 @@ fn run_lock(cap: usize) -> String {
             b_done.store(if r.is_ok() { 1 } else { 2 }, Ordering::Release);
         })
     };
+    // a flush on a third thread must wait as well (it cannot have written anything while A holds the sink)
+    let f_done = Arc::new(AtomicU64::new(0));
+    let fthread = {
+        let sink = sink.clone();
+        let f_done = f_done.clone();
+        std::thread::spawn(move || {
+            let r = sink.flush();
+            f_done.store(if r.is_ok() { 1 } else { 2 }, Ordering::Release);
+        })
+    };
     std::thread::sleep(Duration::from_millis(150));
     let early = b_done.load(Ordering::Acquire);
+    let early_flush = f_done.load(Ordering::Acquire);
     a_stop.store(1, Ordering::Release);
     // release everybody: drain until both are done
     let mut dgs: Vec<Vec<u8>> = Vec::new();
@@ -470,6 +515,7 @@ fn run_lock(cap: usize) -> String {
         std::thread::sleep(Duration::from_millis(1));
     }
     let _ = b.join();
+    let _ = fthread.join();
     let _ = sink.flush();
     while let Ok(n) = peer.recv(&mut buf) {
         dgs.push(buf[..n].to_vec());
@@ -477,6 +523,9 @@ fn run_lock(cap: usize) -> String {
     let _ = std::fs::remove_file(&path);
     if early != 0 {
         return "emit-returned-while-another-thread-held-the-sink-inside-the-socket".to_string();
+    }
+    if early_flush != 0 {
+        return "flush-returned-while-another-thread-held-the-sink-inside-the-socket".to_string();
     }
     if b_done.load(Ordering::Acquire) != 1 {
         return "contended-emit-failed".to_string();
@@ -545,6 +594,8 @@ fn gen_ops(rng: &mut Rng, kind: &str, capn: usize, n: usize, manual: bool) -> Ve
             ops.push("f".to_string());
         } else if r < 26 && manual {
             ops.push("r".to_string());
+        } else if r < 28 && kind.contains("unix") && !kind.ends_with("gone") && !manual {
+            ops.push("R".to_string());
         } else if r < 32 {
             let big: &[usize] = if kind.contains("udp") { &[1432, 8192, 65507, 65508, 70000] } else { &[1432, 8192, 65507, 70000] };
             ops.push(format!("g{}", rng.pick(big)));
